@@ -541,10 +541,12 @@ static void gen_c08(Builder &b, bool thorough) {
 	uint64_t N = gc.N;
 	b.phase = 0; b.task = 0;
 	uint32_t cf = rng.pick(gc.cache_flagsets);
+	if (gc.mode == "fullshipped") { cf |= F_JIT; b.plan.note = "fullshipped"; }
 	b.alloc_cache(0, cf, b.rnd_heap()); b.init_cache(0, b.rnd_key());
 	b.alloc_dataset(0, rng.chance(1, 5) ? F_LARGE : 0, b.rnd_heap());
 	{ Op &g = b.emit(DS_GUARD); g.d = 0; }
-	bool whole = gc.small && rng.chance(1, 3);
+	bool full_shipped = !gc.small && gc.mode == "fullshipped"; // whole 34 M-item dataset, compiled initialiser, then fast-mode hashing
+	bool whole = (gc.small && rng.chance(1, 3)) || full_shipped;
 	// target ranges (disjoint, sorted)
 	std::vector<std::pair<uint64_t, uint64_t>> targets; // [lo,hi)
 	if (whole) targets.push_back({0, N});
